@@ -930,7 +930,12 @@ fn main() {
         let a = body("Context", "add_child");
         let r = body("Context", "register_child");
         let push = ". or_default ( ) . push ( Box :: new ( child . into ( ) ) )";
-        let ok = a.contains("child : impl Into < Sender < ( ) > >") && a.contains(push)
+        // ... each under the key of the message type it is registered for (`add_child`: the unit type), which is the
+        // key `send_to_children::<M>` looks up
+        let keyed = a.contains(". entry ( TypeId :: of :: < ( ) > ( ) )")
+            && r.contains(". entry ( TypeId :: of :: < M > ( ) )")
+            && body("Context", "send_to_children").contains("let key = TypeId :: of :: < M > ( ) ;");
+        let ok = keyed && a.contains("child : impl Into < Sender < ( ) > >") && a.contains(push)
             && r.contains("child : impl Into < Sender < M > >") && r.contains(push)
             && fns.structs.get("Context").map(|s| s.0.contains("children : HashMap < TypeId , Vec < AnyBox > >")).unwrap_or(false);
         sys.push(("childrenAreStrongSendersInContext", ok, loc("Context", "register_child")));
